@@ -1248,31 +1248,66 @@ impl<K: Ord, V> SmallSortedMap<K, V> {
         None
     }
 
-    fn iter(&self) -> impl Iterator<Item = (&K, &V)> + '_ {
-        self.slots.iter().flatten().map(|(k, v)| (k, v))
+    fn iter(&self) -> SmallIter<'_, K, V> {
+        SmallIter { map: self, pos: 0 }
     }
 
-    fn into_values(self) -> impl Iterator<Item = V> {
-        self.slots.into_iter().flatten().map(|(_, v)| v)
+    fn into_values(self) -> SmallIntoValues<K, V> {
+        SmallIntoValues { map: self, pos: 0 }
+    }
+}
+
+/// Ascending by-reference iterator of `SmallSortedMap` (index walk, no nested adapters).
+#[cfg(kani)]
+struct SmallIter<'a, K, V> {
+    map: &'a SmallSortedMap<K, V>,
+    pos: usize,
+}
+
+#[cfg(kani)]
+impl<'a, K, V> Iterator for SmallIter<'a, K, V> {
+    type Item = (&'a K, &'a V);
+
+    fn next(&mut self) -> Option<Self::Item> {
+        if self.pos < self.map.len {
+            let e = self.map.slots[self.pos].as_ref();
+            self.pos += 1;
+            e.map(|(k, v)| (k, v))
+        } else {
+            None
+        }
+    }
+}
+
+/// Ascending by-value iterator over the values of `SmallSortedMap`.
+#[cfg(kani)]
+struct SmallIntoValues<K, V> {
+    map: SmallSortedMap<K, V>,
+    pos: usize,
+}
+
+#[cfg(kani)]
+impl<K, V> Iterator for SmallIntoValues<K, V> {
+    type Item = V;
+
+    fn next(&mut self) -> Option<V> {
+        if self.pos < self.map.len {
+            let e = self.map.slots[self.pos].take();
+            self.pos += 1;
+            e.map(|(_, v)| v)
+        } else {
+            None
+        }
     }
 }
 
 #[cfg(kani)]
 impl<'a, K: Ord, V> IntoIterator for &'a SmallSortedMap<K, V> {
     type Item = (&'a K, &'a V);
-    type IntoIter = std::iter::Map<
-        std::iter::Flatten<std::slice::Iter<'a, Option<(K, V)>>>,
-        fn(&'a (K, V)) -> (&'a K, &'a V),
-    >;
+    type IntoIter = SmallIter<'a, K, V>;
 
     fn into_iter(self) -> Self::IntoIter {
-        fn split<K, V>(e: &(K, V)) -> (&K, &V) {
-            (&e.0, &e.1)
-        }
-        self.slots
-            .iter()
-            .flatten()
-            .map(split::<K, V> as fn(&'a (K, V)) -> (&'a K, &'a V))
+        self.iter()
     }
 }
 
